@@ -1258,9 +1258,17 @@ def _images_part(tree, out, spans):
     mb = mf.body
     if not (_src(mb[0]).startswith('if frame_number is None: raise TypeError(')):
         raise Unsupported('multi-frame: a missing frame number is no longer a TypeError')
-    _expect(mb[1], 'shared_seq = dataset.SharedFunctionalGroupsSequence[0]', 'multi-frame')
-    _expect(mb[2], "is_tiled_full = dataset.get('DimensionOrganizationType', '') == 'TILED_FULL'", 'multi-frame')
-    fs = mb[3]
+    lb = mb[1]
+    if not (isinstance(lb, ast.If) and isinstance(lb.test, ast.Compare) and _src(lb.test.left) == 'frame_number' and len(lb.test.ops) == 1
+            and isinstance(lb.test.ops[0], ast.Lt) and len(lb.body) == 1 and isinstance(lb.body[0], ast.Raise)
+            and ast.unparse(lb.body[0].exc.func) == 'IndexError' and not lb.orelse):
+        raise Unsupported('multi-frame: frame numbers below the first one are no longer refused with IndexError: ' + _src(lb)[:120])
+    out.append('/-- `_get_spatial_information`: the smallest frame number of a multi-frame image (smaller ones are an IndexError, like the ones\n'
+               f'beyond the last frame) -/\ndef firstFrameNumber : Int := {_num(lb.test.comparators[0])}')
+    spans.append(lb)
+    _expect(mb[2], 'shared_seq = dataset.SharedFunctionalGroupsSequence[0]', 'multi-frame')
+    _expect(mb[3], "is_tiled_full = dataset.get('DimensionOrganizationType', '') == 'TILED_FULL'", 'multi-frame')
+    fs = mb[4]
     if not (isinstance(fs, ast.If) and _src(fs.test) == 'is_tiled_full' and _src(fs.body[0]) == 'frame_seq = None' and len(fs.body) == 1
             and len(fs.orelse) == 1 and isinstance(fs.orelse[0], ast.Assign) and ast.unparse(fs.orelse[0].targets[0]) == 'frame_seq'):
         raise Unsupported('multi-frame: frame_seq: ' + _src(fs)[:200])
@@ -1385,6 +1393,71 @@ def _images_part(tree, out, spans):
     out.append('/-- iter_tiled_full_frame_data: its loops from the outermost to the innermost (frames are numbered in this order) -/\n'
                'def iterLoopNest : List String := [' + ', '.join(f'"{x}"' for x in nest) + ']')
     spans.append(loop)
+    # ---- create_affine_matrix_from_attributes: argument checks, refused directions, the rotation call
+    fa = find_func(tree, 'create_affine_matrix_from_attributes')
+    fb = strip_doc(fa.body)
+    lens = []
+    k = 0
+    for name in ('image_position', 'image_orientation', 'pixel_spacing'):
+        t1, t2 = fb[k], fb[k + 1]
+        if not (_src(t1).startswith(f'if not isinstance({name}, (Sequence, np.ndarray)): raise TypeError(')):
+            raise Unsupported(f'create_affine_matrix_from_attributes: type check of {name}: {_src(t1)[:100]}')
+        if not (isinstance(t2, ast.If) and isinstance(t2.test, ast.Compare) and _src(t2.test.left) == f'len({name})' and isinstance(t2.test.ops[0], ast.NotEq)
+                and isinstance(t2.body[0], ast.Raise) and ast.unparse(t2.body[0].exc.func) == 'ValueError'):
+            raise Unsupported(f'create_affine_matrix_from_attributes: length check of {name}: {_src(t2)[:100]}')
+        lens.append((name, _num(t2.test.comparators[0])))
+        spans += [t1, t2]
+        k += 2
+    out.append(lean_table('affineArgumentLengths', 'List (String × Nat)', [f'("{n}", {v})' for n, v in lens],
+                          'create_affine_matrix_from_attributes: required lengths of its sequence arguments (checked in this order, ValueError)'))
+    _expect(fb[k], 'index_convention_ = _normalize_pixel_index_convention(index_convention)', 'create_affine_matrix_from_attributes')
+    ref = fb[k + 1]
+    if not (isinstance(ref, ast.If) and isinstance(ref.test, ast.BoolOp) and isinstance(ref.test.op, ast.Or)
+            and isinstance(ref.body[0], ast.Raise) and ast.unparse(ref.body[0].exc.func) == 'ValueError' and not ref.orelse):
+        raise Unsupported('create_affine_matrix_from_attributes: refusal of index directions')
+    refused = []
+    for v in ref.test.values:
+        if not (isinstance(v, ast.Compare) and len(v.ops) == 1 and isinstance(v.ops[0], ast.In) and _src(v.comparators[0]) == 'index_convention_'):
+            raise Unsupported(f'create_affine_matrix_from_attributes: {_src(v)}')
+        refused.append(_enum_letter(v.left))
+    out.append(lean_table('affineRefusedDirections', 'List Char', [_ch(c) for c in refused],
+                          'create_affine_matrix_from_attributes: index directions it refuses (they would need the image size)'))
+    _expect(fb[k + 2], 'translation = np.array([float(x) for x in image_position], dtype=float)', 'create_affine_matrix_from_attributes')
+    rc = fb[k + 3]
+    if not (isinstance(rc, ast.Assign) and ast.unparse(rc.targets[0]) == 'rotation' and isinstance(rc.value, ast.Call)
+            and ast.unparse(rc.value.func) == 'create_rotation_matrix' and not rc.value.args):
+        raise Unsupported('create_affine_matrix_from_attributes: rotation call')
+    params = [a.arg for a in fa.args.args]
+    kwv = {}
+    for kk in rc.value.keywords:
+        v = ast.unparse(kk.value)
+        if v == 'index_convention_':
+            v = 'index_convention'          # the normalised convention (normalisation is pinned above)
+        if v not in params or kk.arg in kwv:
+            raise Unsupported(f'create_affine_matrix_from_attributes: rotation keyword {kk.arg}={ast.unparse(kk.value)}')
+        kwv[kk.arg] = v
+    if set(kwv) - {s_ for s_, _ in _ROTATION_SLOTS}:
+        raise Unsupported(f'create_affine_matrix_from_attributes: rotation keywords {sorted(kwv)}')
+    tv = {p_: f'T{i}' for i, p_ in enumerate(params)}
+    comps, types = [], []
+    for s_, required in _ROTATION_SLOTS:
+        if s_ in kwv:
+            comps.append(kwv[s_] if required else f'some {kwv[s_]}')
+            types.append(tv[kwv[s_]] if required else f'Option {tv[kwv[s_]]}')
+        elif required:
+            raise Unsupported(f'create_affine_matrix_from_attributes: rotation argument {s_} not passed')
+        else:
+            comps.append('none')
+            t_ = _ROTATION_ABSENT_T[s_]
+            types.append(f'Option ({t_})' if ' ' in t_ else f'Option {t_}')
+    out.append('/-- create_affine_matrix_from_attributes: arguments of create_rotation_matrix (none = its default; `index_convention` is the NORMALISED one) -/\n'
+               f'def affineRotationCall {{{" ".join(tv[p_] for p_ in params)} : Type}} {" ".join(f"({p_} : {tv[p_]})" for p_ in params)} :\n'
+               f'    {" × ".join(types)} :=\n  ({", ".join(comps)})')
+    _expect(fb[k + 4], 'affine = _stack_affine_matrix(rotation, translation)', 'create_affine_matrix_from_attributes')
+    _expect(fb[k + 5], 'return affine', 'create_affine_matrix_from_attributes')
+    if len(fb) != k + 6:
+        raise Unsupported('create_affine_matrix_from_attributes: extra statements')
+    spans += fb[k:]
     # ---- get_image_coordinate_system: the attributes that decide, in the order they are looked at
     fn = find_func(tree, 'get_image_coordinate_system')
     body = strip_doc(fn.body)
@@ -1431,3 +1504,126 @@ def _images_part(tree, out, spans):
 
 
 TARGETS['TC10g'] = {'file': 'spatial.py', 'build': build_TC10g}
+
+
+# ---------------------------------------------------------------------------------------------------------------------------
+# TC10s  "module state": every place of spatial.py where a function could keep something between calls - a `global` statement, a
+# store into (a subscript / attribute of) a module-level name or a class, a mutating method call on one, a caching decorator
+# (functools.lru_cache / cache).  Transformers and spatial information must depend on the CURRENT attributes of the dataset only
+# (seeded R2C10-3, R5C10-3: frame positions memoised by SOP Instance UID); the table is expected to be EMPTY and
+# `no_hidden_module_state` in Props/C10.lean states that.  A per-instance attribute (`self._affine = …`) is not module state.
+_S_MUT = _W_MUT | {'add', 'discard', 'popitem', 'move_to_end', 'appendleft', 'extendleft', 'difference_update', 'intersection_update',
+                   'symmetric_difference_update'}
+
+
+def _s_module_names(tree):
+    names = set()
+    for n in tree.body:
+        if isinstance(n, ast.Assign):
+            for t in n.targets:
+                for x in ast.walk(t):
+                    if isinstance(x, ast.Name):
+                        names.add(x.id)
+        elif isinstance(n, ast.AnnAssign) and isinstance(n.target, ast.Name):
+            names.add(n.target.id)
+        elif isinstance(n, ast.ClassDef):
+            names.add(n.name)
+    return names
+
+
+def _s_locals(fn):
+    loc = {a.arg for a in fn.args.posonlyargs + fn.args.args + fn.args.kwonlyargs}
+    if fn.args.vararg:
+        loc.add(fn.args.vararg.arg)
+    if fn.args.kwarg:
+        loc.add(fn.args.kwarg.arg)
+    glob = set()
+    for n in ast.walk(fn):
+        if isinstance(n, ast.Global):
+            glob |= set(n.names)
+        elif isinstance(n, (ast.Assign, ast.AugAssign, ast.AnnAssign)):
+            tg = n.targets if isinstance(n, ast.Assign) else [n.target]
+            for t in tg:
+                for x in ([t] if isinstance(t, ast.Name) else (t.elts if isinstance(t, (ast.Tuple, ast.List)) else [])):
+                    if isinstance(x, ast.Name):
+                        loc.add(x.id)
+                    elif isinstance(x, ast.Starred) and isinstance(x.value, ast.Name):
+                        loc.add(x.value.id)
+        elif isinstance(n, (ast.For, ast.AsyncFor, ast.comprehension)):
+            for x in ast.walk(n.target):
+                if isinstance(x, ast.Name):
+                    loc.add(x.id)
+        elif isinstance(n, (ast.With, ast.AsyncWith)):
+            for it in n.items:
+                if it.optional_vars is not None:
+                    for x in ast.walk(it.optional_vars):
+                        if isinstance(x, ast.Name):
+                            loc.add(x.id)
+        elif isinstance(n, ast.NamedExpr) and isinstance(n.target, ast.Name):
+            loc.add(n.target.id)
+    return loc - glob, glob
+
+
+def build_TC10s(tree):
+    mod = _s_module_names(tree)
+    rows, spans, scanned = [], [], 0
+
+    def scan(fn, qual):
+        nonlocal scanned
+        scanned += 1
+        spans.append(fn)
+        loc, glob = _s_locals(fn)
+
+        def is_module(name):
+            return name is not None and (name in glob or (name in mod and name not in loc)) and name not in ('self',)
+
+        def note(name, st):
+            rows.append((qual, name, ' '.join(ast.unparse(st).split())[:120]))
+        for d in fn.decorator_list:
+            t = ast.unparse(d)
+            if 'lru_cache' in t or t.split('(')[0].split('.')[-1] in ('cache', 'cached', 'memoize', 'memoise'):
+                note('@' + t, d)
+        for g in glob:
+            note(g, ast.Global(names=[g]))
+        for st in ast.walk(fn):
+            if isinstance(st, (ast.FunctionDef, ast.AsyncFunctionDef)) and st is not fn:
+                continue
+            if isinstance(st, (ast.Assign, ast.AugAssign, ast.AnnAssign)):
+                tg = st.targets if isinstance(st, ast.Assign) else [st.target]
+                for t in tg:
+                    if isinstance(t, (ast.Subscript, ast.Attribute)) and is_module(_w_base(t)):
+                        note(_w_base(t), st)
+                    if isinstance(t, (ast.Subscript, ast.Attribute)) and _w_base(t) == 'cls':
+                        note('cls', st)
+            elif isinstance(st, ast.Delete):
+                for t in st.targets:
+                    if isinstance(t, (ast.Subscript, ast.Attribute)) and is_module(_w_base(t)):
+                        note(_w_base(t), st)
+            elif isinstance(st, ast.Call) and isinstance(st.func, ast.Attribute) and st.func.attr in _S_MUT and is_module(_w_base(st.func.value)):
+                note(_w_base(st.func.value), st)
+            elif isinstance(st, ast.Call) and ast.unparse(st.func) in ('setattr',) and st.args and is_module(_w_base(st.args[0])):
+                note(_w_base(st.args[0]), st)
+
+    for n in tree.body:
+        if isinstance(n, (ast.FunctionDef, ast.AsyncFunctionDef)):
+            scan(n, n.name)
+            for m in ast.walk(n):
+                if isinstance(m, (ast.FunctionDef, ast.AsyncFunctionDef)) and m is not n:
+                    scan(m, f'{n.name}.<locals>.{m.name}')
+        elif isinstance(n, ast.ClassDef):
+            for m in n.body:
+                if isinstance(m, (ast.FunctionDef, ast.AsyncFunctionDef)):
+                    scan(m, f'{n.name}.{m.name}')
+    if scanned < 40:
+        raise Unsupported(f'only {scanned} functions of spatial.py scanned')
+    # mutable module-level containers are listed too: none is expected besides constants
+    esc = lambda t: t.replace('\\', '\\\\').replace('"', '\\"')
+    body = ('[' + ',\n   '.join(f'("{esc(a)}", "{esc(b)}", "{esc(c)}")' for a, b, c in rows) + ']') if rows else '[]'
+    text = ('/-- spatial.py: every statement through which a function could keep state between calls (function, name, statement): `global`,\n'
+            'stores into module-level names or classes, mutating method calls on them, caching decorators; expected to be empty -/\n'
+            f'def moduleStateWrites : List (String × String × String) :=\n  {body}\n\n'
+            f'/-- the functions and methods that were scanned -/\ndef moduleStateScanned : Nat := {scanned}')
+    return text, span_sha(spans)
+
+
+TARGETS['TC10s'] = {'file': 'spatial.py', 'build': build_TC10s}
